@@ -329,10 +329,24 @@ def execute(run):
     _check_flow(ctx, run, vine, cond)
     _check_likelihood(ctx, run, vine, cond)
     ctx.nontrivial = True
+    u0 = np.array([run['points'][0][:d]], dtype=float)
+    with sterile(4), Poison(p0, seed=run['pseed'] + 5):
+        before = outcome(vine.get_likelihood, u0.copy())
     for i, op in enumerate(run['ops']):
         ctx.op_index = i
         ctx.stats['ops'] += 1
         _check_sample(ctx, run, vine, df, op['n'], cond)
+    # "a deterministic function of (model, u)": using the model (sampling from it) in between
+    # must not change the value
+    with sterile(4), Poison(p0, seed=run['pseed'] + 5):
+        after = outcome(vine.get_likelihood, u0.copy())
+    ctx.stats['likelihood_evaluations'] += 2
+    if outcome_class(before) != outcome_class(after) or (
+            before[0] == 'ok' and not same(float(before[1]), float(after[1]))):
+        ctx.violate('b_likelihood_unchanged_by_sampling', SUBJECT_LIK,
+                    'u=%r: %s before sampling from the model, %s after'
+                    % (run['points'][0], before[1] if before[0] == 'ok' else outcome_class(before),
+                       after[1] if after[0] == 'ok' else outcome_class(after)), **cond)
     st = '|'.join([run['type'], str(d), str(run['trunc']), ''.join(fams)])
     ctx.states.add(st)
     ctx.shape.append(st)
